@@ -657,6 +657,13 @@ fn dfs(prog: &Prog, max_schedules: u64) -> (u64, u64, bool) {
 static CLOCK: AtomicU64 = AtomicU64::new(0);
 
 fn run_free(prog: &Prog) -> (Vec<Call>, Vec<u64>) {
+    run_free_then(prog, &[])
+}
+
+/// Free-running threads, then - after all of them have finished - a sequential EPILOGUE on the same
+/// bitmap by the calling thread (the concurrent phase must not leave anything behind that makes
+/// the bitmap stop behaving like a set afterwards: drifted counters, stale summaries).
+fn run_free_then(prog: &Prog, epilogue: &[Op]) -> (Vec<Call>, Vec<u64>) {
     let bm = Arc::new(AtomicBitmap::new(prog.pages, NonZeroUsize::new(1).unwrap()));
     let start = Arc::new(std::sync::Barrier::new(prog.threads.len()));
     let mut calls = vec![];
@@ -685,6 +692,12 @@ fn run_free(prog: &Prog) -> (Vec<Call>, Vec<u64>) {
     }
     for h in hs {
         calls.extend(h.join().unwrap());
+    }
+    for op in epilogue {
+        let inv = CLOCK.fetch_add(1, Ordering::SeqCst);
+        let ret = exec(&bm, op);
+        let resp = CLOCK.fetch_add(1, Ordering::SeqCst);
+        calls.push(Call { thread: prog.threads.len(), op: op.clone(), inv, resp, ret });
     }
     let w = final_words(&bm);
     (calls, w)
@@ -766,8 +779,78 @@ pub fn run(args: &Args) {
             let mut overlapped = 0u64;
             for case in args.cases(iters) {
                 let mut r = Rng::new(args.seed(), "c08-free", case);
-                let p = if case % 3 == 0 { larger(&mut r) } else { let c = catalogue(); let k = r.usize_below(c.len()); c.into_iter().nth(k).unwrap() };
-                let (calls, words) = run_free(&p);
+                // every third history: a TINY bitmap (2..5 pages) hammered by a marker and a harvester,
+                // followed by a sequential epilogue that marks every page, reads every page back,
+                // harvests and reads again
+                let tiny = case % 3 == 1 && !cfg!(miri);
+                if tiny && case % 30 == 1 {
+                    // long concurrent phase (thousands of operations per thread: the two threads do
+                    // overlap), judged on the sequential epilogue alone
+                    let pages = 2 + r.usize_below(5);
+                    let k = 4000;
+                    let bm = Arc::new(AtomicBitmap::new(pages, NonZeroUsize::new(1).unwrap()));
+                    let go = Arc::new(std::sync::atomic::AtomicBool::new(false));
+                    let hs: Vec<_> = (0..2)
+                        .map(|t| {
+                            let (bm, go) = (bm.clone(), go.clone());
+                            let hot = r.usize_below(pages);
+                            std::thread::spawn(move || {
+                                while !go.load(Ordering::Acquire) {
+                                    std::hint::spin_loop();
+                                }
+                                for i in 0..k {
+                                    if t == 0 {
+                                        bm.set_bit(if i % 8 == 7 { i % pages } else { hot });
+                                    } else if i % 5 == 4 {
+                                        bm.reset_bit(hot);
+                                    } else {
+                                        let _ = bm.get_and_reset();
+                                    }
+                                }
+                            })
+                        })
+                        .collect();
+                    go.store(true, Ordering::Release);
+                    for h in hs {
+                        let _ = h.join();
+                    }
+                    // sequential epilogue: the bitmap is a set again (no harvest or reset first:
+                    // whatever the racy phase left behind must not matter)
+                    for p in (1..pages).chain([0]) {
+                        bm.set_bit(p);
+                    }
+                    let all_set = (0..pages).all(|p| bm.is_bit_set(p));
+                    let harvested: u32 = bm.get_and_reset().iter().map(|w| w.count_ones()).sum();
+                    let none_set = (0..pages).all(|p| !bm.is_bit_set(p));
+                    if !all_set || harvested as usize != pages || !none_set {
+                        out::viol("C08/free/tiny/sequential-epilogue-after-a-racy-phase", jobj! {"pages" => pages, "every_page_set_after_marking_every_page" => all_set, "pages_harvested" => harvested, "clean_after_harvest" => none_set});
+                        break;
+                    }
+                    n += 1;
+                    overlapped += 1;
+                    out::key("free|tiny|long-racy-phase-then-epilogue", true);
+                    continue;
+                }
+                let (p, epilogue) = if tiny {
+                    use Op::*;
+                    let pages = 2 + r.usize_below(4);
+                    let k = 30 + r.usize_below(40);
+                    let marker: Vec<Op> = (0..k).map(|i| SetBit(if r.chance(3, 4) { 0 } else { i % pages })).collect();
+                    let harvester: Vec<Op> = (0..k).map(|_| Harvest).collect();
+                    let mut ep: Vec<Op> = (1..pages).map(SetBit).collect();
+                    ep.push(SetBit(0));
+                    ep.extend((0..pages).map(IsBitSet));
+                    ep.push(Harvest);
+                    ep.extend((0..pages).map(IsBitSet));
+                    (Prog { name: "tiny/marker-vs-harvester-then-sequential-epilogue", pages, threads: vec![marker, harvester], init: vec![] }, ep)
+                } else if case % 3 == 0 {
+                    (larger(&mut r), vec![])
+                } else {
+                    let c = catalogue();
+                    let k = r.usize_below(c.len());
+                    (c.into_iter().nth(k).unwrap(), vec![])
+                };
+                let (calls, words) = run_free_then(&p, &epilogue);
                 n += 1;
                 // did two calls of different threads overlap in time?
                 let ov = calls.iter().any(|a| calls.iter().any(|b| a.thread != b.thread && a.inv < b.resp && b.inv < a.resp));
